@@ -295,4 +295,56 @@ theorem inTableText_ok : InTableTextOK := by
   | comment c => exact tableTextOther_resp (.comment c)
   | eof => exact tableTextOther_resp .eof
 
+/-- `orig_mode.take().unwrap()`, answering the mode -/
+theorem takeOrigMode_resp :
+    Resp (getS >>= fun s => match s.origMode with
+      | none => (panicAt "unwrap-none" "rules.rs:1172" "orig_mode.take().unwrap()" : M Mode)
+      | some m => (set { s with origMode := none } : M PUnit) >>= fun _ => pure m) := by
+  refine respQ_getS_bind_diag ?_
+  intro a b hab
+  have ho := hab.origMode
+  rw [← ho]
+  cases a.origMode with
+  | none => trivial
+  | some m =>
+    exact relR_set_bind (sim_of_comm (g := fun s => { s with origMode := none })
+      (fun _ _ _ _ _ => rfl) (fun _ h => h) (fun _ => rfl) hab) (resp_pure m)
+
+/-- `flush_pending_table_text`: the same flush, answering the original insertion mode -/
+theorem flushText_ok : FlushTextOK := by
+  show Resp flushPendingTableText
+  have key : Resp (getS >>= fun s0 =>
+      (modS fun s => { s with pendingTableText := [] }) >>= fun _ =>
+      if cns s0.pendingTableText = true then
+        parseError "Non-space table text" >>= fun _ => flushPendingFoster s0.pendingTableText >>= fun _ =>
+          (getS >>= fun s => match s.origMode with
+            | none => (panicAt "unwrap-none" "rules.rs:1172" "orig_mode.take().unwrap()" : M Mode)
+            | some m => (set { s with origMode := none } : M PUnit) >>= fun _ => pure m)
+      else
+        flushPendingPlain s0.pendingTableText >>= fun _ =>
+          (getS >>= fun s => match s.origMode with
+            | none => (panicAt "unwrap-none" "rules.rs:1172" "orig_mode.take().unwrap()" : M Mode)
+            | some m => (set { s with origMode := none } : M PUnit) >>= fun _ => pure m)) := by
+    refine respQ_getS_bind_diag ?_
+    intro s t hst
+    have hp := hst.pend
+    refine relR_bind (P := fun _ => True) ?_ ?_
+    · exact ⟨rfl, trivial, sim_clearPend hst⟩
+    · intro _ s' t' _ hs't'
+      rw [hp.cns]
+      cases cns t.pendingTableText with
+      | true =>
+        simp only [if_true]
+        refine relR_bind (parseError_resp _ s' t' hs't') ?_
+        intro _ s2 t2 _ h2
+        refine relR_bind (flushFoster_rel hp s2 t2 h2) ?_
+        intro _ s3 t3 _ h3
+        exact takeOrigMode_resp s3 t3 h3
+      | false =>
+        simp only [Bool.false_eq_true, if_false]
+        refine relR_bind (flushPlain_rel hp s' t' hs't') ?_
+        intro _ s3 t3 _ h3
+        exact takeOrigMode_resp s3 t3 h3
+  exact key
+
 end H5V.Lemmas.TBSplit
